@@ -1,2 +1,369 @@
 import ZarrsModel.Model.Conform
-/- helper lemmas for C12 -/
+import ZarrsModel.Lemmas.CodecBasic
+import ZarrsModel.Lemmas.CodecTranspose
+/- helper lemmas for C12, part 1: bytes-to-bytes chains, element (de)serialisation, transposes,
+   `assemble`/`subBox`, `Option.mapM`, `Store.get` on written stores -/
+namespace Zarrs.Conform
+open Zarrs Zarrs.Codec Zarrs.Inflate
+
+/-- the bytes-to-bytes containers of a layout read back (derived from `DeflateOk` in Props/C12) -/
+def GzOk (l : Layout) : Prop :=
+  (∀ b : Bytes, (∀ x ∈ b, x < 256) → gunzip (gzipWith (deflateOf l) l.gzipExtra b) = some b) ∧
+  (∀ b : Bytes, (∀ x ∈ b, x < 256) → ∀ x ∈ gzipWith (deflateOf l) l.gzipExtra b, x < 256)
+
+/-! ### bytes to bytes -/
+
+theorem codec_le32_wf (n : Nat) : ∀ x ∈ Codec.le32 n, x < 256 := by
+  intro x hx
+  simp only [Codec.le32, List.mem_cons, List.not_mem_nil, or_false] at hx
+  omega
+
+theorem b2bDec1_enc1 (l : Layout) (hg : GzOk l) (c : B2BK) (b : Bytes) (hb : ∀ x ∈ b, x < 256) :
+    b2bDec1 c (b2bEnc1 l c b) = some b ∧ ∀ x ∈ b2bEnc1 l c b, x < 256 := by
+  cases c with
+  | gzip => exact ⟨hg.1 b hb, hg.2 b hb⟩
+  | crc32c =>
+    refine ⟨?_, ?_⟩
+    · have hlen : (b ++ Codec.le32 (crc32c b)).length = b.length + 4 := by simp [Codec.le32]
+      simp only [b2bDec1, b2bEnc1, hlen]
+      rw [if_neg (by omega)]
+      simp only [Nat.add_sub_cancel, List.take_left', List.drop_left', beq_self_eq_true, if_true]
+    · intro x hx
+      simp only [b2bEnc1, List.mem_append] at hx
+      rcases hx with hx | hx
+      · exact hb x hx
+      · exact codec_le32_wf _ x hx
+
+theorem b2bEnc_cons (l : Layout) (c : B2BK) (cs : List B2BK) (b : Bytes) :
+    b2bEnc l (c :: cs) b = b2bEnc l cs (b2bEnc1 l c b) := rfl
+
+theorem b2bDec_cons (c : B2BK) (cs : List B2BK) (v : Bytes) :
+    b2bDec (c :: cs) v = (b2bDec cs v).bind (b2bDec1 c) := by
+  simp [b2bDec, List.foldl_append]
+
+theorem b2b_roundtrip' (l : Layout) (hg : GzOk l) (cs : List B2BK) : ∀ (b : Bytes), (∀ x ∈ b, x < 256) →
+    b2bDec cs (b2bEnc l cs b) = some b ∧ ∀ x ∈ b2bEnc l cs b, x < 256 := by
+  induction cs with
+  | nil => intro b hb; exact ⟨rfl, hb⟩
+  | cons c cs ih =>
+    intro b hb
+    obtain ⟨h1, h2⟩ := b2bDec1_enc1 l hg c b hb
+    obtain ⟨h3, h4⟩ := ih _ h2
+    rw [b2bEnc_cons, b2bDec_cons, h3]
+    exact ⟨h1, h4⟩
+
+/-! ### elements -/
+
+theorem flatten_wf : ∀ (xs : List Bytes), (∀ x ∈ xs, ∀ y ∈ x, y < 256) → ∀ y ∈ xs.flatten, y < 256 := by
+  intro xs h y hy
+  rw [List.mem_flatten] at hy
+  obtain ⟨x, hx, hyx⟩ := hy
+  exact h x hx y hyx
+
+theorem bytesEncElems_wf (big : Bool) (xs : List Elem) (h : ∀ x ∈ xs, ∀ y ∈ x, y < 256) :
+    ∀ y ∈ bytesEncElems big xs, y < 256 := by
+  unfold bytesEncElems
+  apply flatten_wf
+  cases big with
+  | false => exact h
+  | true =>
+    intro x hx y hy
+    simp only [if_true, List.mem_map] at hx
+    obtain ⟨x', hx', rfl⟩ := hx
+    exact h x' hx' y (List.mem_reverse.1 hy)
+
+theorem bytesDecElems_enc (big : Bool) (es : Nat) (hes : 0 < es) (xs : List Elem) (h : ∀ x ∈ xs, x.length = es) :
+    bytesDecElems big es (bytesEncElems big xs) = some xs := by
+  have key : ∀ (gs : List Elem), (∀ g ∈ gs, g.length = es) → splitElems es gs.flatten = some gs := by
+    intro gs hg
+    unfold splitElems
+    have hl := flatten_length_of_all es gs hg
+    rw [if_neg (by simp [hl]; omega)]
+    rw [chunksOf_of_flatten es hes gs _ hg (by omega)]
+  unfold bytesDecElems bytesEncElems
+  cases big with
+  | false => simp [key xs h]
+  | true =>
+    simp only [if_true]
+    rw [key (xs.map List.reverse) (by
+      intro g hg
+      rw [List.mem_map] at hg
+      obtain ⟨x, hx, rfl⟩ := hg
+      simp [h x hx])]
+    simp [List.map_map, Function.comp_def]
+
+theorem bytesEncElems_length (big : Bool) (es : Nat) (xs : List Elem) (h : ∀ x ∈ xs, x.length = es) :
+    (bytesEncElems big xs).length = xs.length * es := by
+  unfold bytesEncElems
+  cases big with
+  | false => exact flatten_length_of_all es xs h
+  | true =>
+    simp only [if_true]
+    rw [flatten_length_of_all es (xs.map List.reverse) (by
+      intro g hg
+      rw [List.mem_map] at hg
+      obtain ⟨x, hx, rfl⟩ := hg
+      simp [h x hx])]
+    simp
+
+/-! ### transposes -/
+
+theorem transposeEnc_mem {order : List Nat} {shape : Shape} {xs : List Elem}
+    (ho : validOrder order shape.length = true) (hx : xs.length = prod shape) :
+    ∀ y ∈ transposeEnc order shape xs, y ∈ xs := by
+  obtain ⟨hl, hc⟩ := (validOrder_iff _ _).1 ho
+  have hc' : ∀ a, a < order.length → a ∈ order := by rw [hl]; exact hc
+  intro y hy
+  simp only [transposeEnc, List.mem_map] at hy
+  obtain ⟨j, hj, rfl⟩ := hy
+  rw [mem_boxIndices] at hj
+  have h1 := ravel_lt _ _ (inB_permute_inv j shape order hl hc' hj)
+  rw [← hx] at h1
+  rw [List.getD_eq_getElem?_getD, List.getElem?_eq_getElem h1]
+  exact List.getElem_mem h1
+
+theorem shapesThrough_ne_nil (s0 : Shape) (ts : List (List Nat)) : shapesThrough s0 ts ≠ [] := by
+  cases ts <;> simp [shapesThrough]
+
+theorem getLastD_of_ne_nil {α} : ∀ (l : List α) (a b : α), l ≠ [] → l.getLastD a = l.getLastD b
+  | [], _, _, h => absurd rfl h
+  | _ :: _, _, _, _ => by simp [List.getLastD]
+
+theorem encodedShape_nil (s0 : Shape) : encodedShape s0 [] = s0 := rfl
+
+theorem encodedShape_cons (s0 : Shape) (o : List Nat) (os : List (List Nat)) :
+    encodedShape s0 (o :: os) = encodedShape (permute s0 o) os := by
+  unfold encodedShape
+  simp only [shapesThrough]
+  have hne := shapesThrough_ne_nil (permute s0 o) os
+  cases hs : shapesThrough (permute s0 o) os with
+  | nil => exact absurd hs hne
+  | cons a r => simp [List.getLastD]
+
+theorem dotranspose_cons (s0 : Shape) (o : List Nat) (os : List (List Nat)) (xs : List Elem) :
+    dotranspose s0 (o :: os) xs = dotranspose (permute s0 o) os (transposeEnc o s0 xs) := by
+  simp [dotranspose, shapesThrough]
+
+theorem untranspose_cons (s0 : Shape) (o : List Nat) (os : List (List Nat)) (ys : List Elem) :
+    untranspose s0 (o :: os) ys = transposeDec o s0 (untranspose (permute s0 o) os ys) := by
+  simp [untranspose, shapesThrough, List.foldl_append]
+
+/-- all transposes undone; sizes and element membership preserved -/
+theorem untranspose_dotranspose (ts : List (List Nat)) : ∀ (s0 : Shape) (xs : List Elem),
+    (∀ o ∈ ts, validOrder o s0.length = true) → xs.length = prod s0 →
+    untranspose s0 ts (dotranspose s0 ts xs) = xs ∧
+    (dotranspose s0 ts xs).length = prod (encodedShape s0 ts) ∧
+    prod (encodedShape s0 ts) = prod s0 ∧ (encodedShape s0 ts).length = s0.length ∧
+    (∀ y ∈ dotranspose s0 ts xs, y ∈ xs) := by
+  induction ts with
+  | nil =>
+    intro s0 xs _ hx
+    exact ⟨rfl, hx, rfl, rfl, fun y hy => hy⟩
+  | cons o os ih =>
+    intro s0 xs ho hx
+    have ho1 : validOrder o s0.length = true := ho o (by simp)
+    obtain ⟨h1, h2, h3, _⟩ := transpose_dec_enc' o s0 xs ho1 hx
+    have hlen : (permute s0 o).length = s0.length := by
+      rw [permute_length]; exact ((validOrder_iff _ _).1 ho1).1
+    obtain ⟨i1, i2, i3, i4, i5⟩ := ih (permute s0 o) (transposeEnc o s0 xs)
+      (fun o' ho' => by rw [hlen]; exact ho o' (by simp [ho'])) h2
+    rw [dotranspose_cons, untranspose_cons, encodedShape_cons, i1, h1]
+    refine ⟨rfl, i2, i3.trans h3, i4.trans hlen, ?_⟩
+    intro y hy
+    exact transposeEnc_mem ho1 hx y (i5 y hy)
+
+/-- a list all of whose elements equal `f` -/
+theorem eq_replicate_of_all (f : Elem) : ∀ (l : List Elem), l.all (· == f) = true → l = List.replicate l.length f := by
+  intro l h
+  rw [List.all_eq_true] at h
+  exact List.eq_replicate_iff.2 ⟨rfl, fun b hb => by simpa using h b hb⟩
+
+/-! ### inner chunks -/
+
+theorem innerDec_enc (l : Layout) (hg : GzOk l) (es : Nat) (hes : 0 < es) (shape : Shape) (c : Inner)
+    (ho : ∀ o ∈ c.transposes, validOrder o shape.length = true) (xs : List Elem) (hx : xs.length = prod shape)
+    (hxe : ∀ x ∈ xs, x.length = es ∧ ∀ y ∈ x, y < 256) :
+    innerDec es shape c (innerEnc l shape c xs) = some xs ∧ ∀ y ∈ innerEnc l shape c xs, y < 256 := by
+  obtain ⟨t1, t2, t3, _, t5⟩ := untranspose_dotranspose c.transposes shape xs ho hx
+  have hye : ∀ x ∈ dotranspose shape c.transposes xs, x.length = es ∧ ∀ y ∈ x, y < 256 :=
+    fun x hx' => hxe x (t5 x hx')
+  have hwf := bytesEncElems_wf c.big _ (fun x hx' => (hye x hx').2)
+  obtain ⟨b1, b2⟩ := b2b_roundtrip' l hg c.b2b _ hwf
+  refine ⟨?_, b2⟩
+  unfold innerDec innerEnc
+  rw [b1]
+  simp only [Option.bind_some]
+  rw [bytesDecElems_enc c.big es hes _ (fun x hx' => (hye x hx').1)]
+  simp only [t2, t3, beq_self_eq_true, if_true, t1]
+
+/-! ### `Option.mapM` -/
+
+theorem mapM_some_of_forall {α β} (g : α → Option β) (h : α → β) : ∀ (l : List α),
+    (∀ x ∈ l, g x = some (h x)) → l.mapM g = some (l.map h)
+  | [], _ => rfl
+  | a :: l, hall => by
+    rw [List.mapM_cons, hall a (by simp), mapM_some_of_forall g h l (fun x hx => hall x (by simp [hx]))]
+    rfl
+
+/-! ### grids, `assemble` and `subBox` -/
+
+theorem div_lt_ceilDiv {j n s : Nat} (hs : 0 < s) (h : j < n) : j / s < ceilDiv n s := by
+  unfold ceilDiv
+  rw [Nat.div_lt_iff_lt_mul hs]
+  have h1 := Nat.div_add_mod (n + s - 1) s
+  have h2 := Nat.mod_lt (n + s - 1) hs
+  rw [Nat.mul_comm]
+  generalize (n + s - 1) / s = q at *
+  generalize (n + s - 1) % s = r at *
+  omega
+
+theorem div_inB : ∀ (j shape sub : List Nat), sub.length = shape.length → (∀ d ∈ sub, 0 < d) → inB j shape = true →
+    inB (List.zipWith (· / ·) j sub) (gridOf shape sub) = true
+  | [], [], [], _, _, _ => rfl
+  | [], [], _ :: _, hl, _, _ => by simp at hl
+  | [], _ :: _, _, _, _, h => by simp [inB] at h
+  | _ :: _, [], _, _, _, h => by simp [inB] at h
+  | _ :: _, _ :: _, [], hl, _, _ => by simp at hl
+  | a :: j, n :: shape, s :: sub, hl, hp, h => by
+    simp only [inB, Bool.and_eq_true, decide_eq_true_eq] at h
+    simp only [gridOf, List.zipWith_cons_cons, inB, Bool.and_eq_true, decide_eq_true_eq]
+    exact ⟨div_lt_ceilDiv (hp s (by simp)) h.1,
+      div_inB j shape sub (by simpa using hl) (fun d hd => hp d (by simp [hd])) h.2⟩
+
+theorem mod_inB : ∀ (j shape sub : List Nat), sub.length = shape.length → (∀ d ∈ sub, 0 < d) → inB j shape = true →
+    inB (List.zipWith (· % ·) j sub) sub = true
+  | [], [], [], _, _, _ => rfl
+  | [], [], _ :: _, hl, _, _ => by simp at hl
+  | [], _ :: _, _, _, _, h => by simp [inB] at h
+  | _ :: _, [], _, _, _, h => by simp [inB] at h
+  | _ :: _, _ :: _, [], hl, _, _ => by simp at hl
+  | a :: j, n :: shape, s :: sub, hl, hp, h => by
+    simp only [inB, Bool.and_eq_true, decide_eq_true_eq] at h
+    simp only [List.zipWith_cons_cons, inB, Bool.and_eq_true, decide_eq_true_eq]
+    exact ⟨Nat.mod_lt _ (hp s (by simp)),
+      mod_inB j shape sub (by simpa using hl) (fun d hd => hp d (by simp [hd])) h.2⟩
+
+theorem div_mod_recombine : ∀ (j shape sub : List Nat), sub.length = shape.length → inB j shape = true →
+    List.zipWith (fun (cw : Nat × Nat) s => cw.1 * s + cw.2)
+      ((List.zipWith (· / ·) j sub).zip (List.zipWith (· % ·) j sub)) sub = j
+  | [], [], [], _, _ => rfl
+  | [], [], _ :: _, hl, _ => by simp at hl
+  | [], _ :: _, _, _, h => by simp [inB] at h
+  | _ :: _, [], _, _, h => by simp [inB] at h
+  | _ :: _, _ :: _, [], hl, _ => by simp at hl
+  | a :: j, n :: shape, s :: sub, hl, h => by
+    simp only [inB, Bool.and_eq_true, decide_eq_true_eq] at h
+    simp only [List.zipWith_cons_cons, List.zip_cons_cons, List.cons.injEq]
+    refine ⟨?_, div_mod_recombine j shape sub (by simpa using hl) h.2⟩
+    rw [Nat.mul_comm]
+    exact Nat.div_add_mod a s
+
+theorem subBox_length (shape sub : Shape) (xs : List Elem) (c : Idx) (fill : Elem) :
+    (subBox shape sub xs c fill).length = prod sub := by
+  simp [subBox, boxIndices_length]
+
+theorem subBox_mem (shape sub : Shape) (xs : List Elem) (c : Idx) (fill : Elem) :
+    ∀ y ∈ subBox shape sub xs c fill, y ∈ xs ∨ y = fill := by
+  intro y hy
+  simp only [subBox, List.mem_map] at hy
+  obtain ⟨w, _, rfl⟩ := hy
+  split
+  · rw [List.getD_eq_getElem?_getD]
+    cases hq : xs[ravel (List.zipWith (fun (cw : Nat × Nat) s => cw.1 * s + cw.2) (c.zip w) sub) shape]? with
+    | none => right; rfl
+    | some v => left; exact List.mem_of_getElem? hq
+  · right; rfl
+
+theorem subBox_getD (shape sub : Shape) (xs : List Elem) (c w : Idx) (fill : Elem) (hw : inB w sub = true) :
+    (subBox shape sub xs c fill).getD (ravel w sub) fill =
+      (let i := List.zipWith (fun (cw : Nat × Nat) s => cw.1 * s + cw.2) (c.zip w) sub
+       if inB i shape then xs.getD (ravel i shape) fill else fill) := by
+  simp only [subBox, List.getD_eq_getElem?_getD, List.getElem?_map, boxIndices_getElem?_ravel w sub hw,
+    Option.map_some, Option.getD_some]
+
+/-- the parts of a box, listed in C order of the grid, assemble to the box -/
+theorem assemble_eq (shape sub : Shape) (hl : sub.length = shape.length) (hpos : ∀ d ∈ sub, 0 < d)
+    (xs : List Elem) (hx : xs.length = prod shape) (fill : Elem) (parts : List (List Elem))
+    (hp : ∀ c, inB c (gridOf shape sub) = true →
+      parts.getD (ravel c (gridOf shape sub)) [] = subBox shape sub xs c fill) :
+    assemble shape sub parts fill = xs := by
+  apply list_ext_box shape _ _ (by simp [assemble, boxIndices_length]) hx
+  intro j hj
+  have hc := div_inB j shape sub hl hpos hj
+  have hw := mod_inB j shape sub hl hpos hj
+  have hr := div_mod_recombine j shape sub hl hj
+  have hlt : ravel j shape < xs.length := by rw [hx]; exact ravel_lt j shape hj
+  simp only [assemble, List.getElem?_map, boxIndices_getElem?_ravel j shape hj, Option.map_some]
+  rw [hp _ hc, subBox_getD _ _ _ _ _ _ hw]
+  simp only [hr, hj, if_true]
+  rw [List.getD_eq_getElem?_getD, List.getElem?_eq_getElem hlt]
+  rfl
+
+/-- the parts as a `map` over the grid -/
+theorem map_getD_ravel {β} (grid : Shape) (f : Idx → β) (d : β) (c : Idx) (hc : inB c grid = true) :
+    ((boxIndices grid).map f).getD (ravel c grid) d = f c := by
+  simp only [List.getD_eq_getElem?_getD, List.getElem?_map, boxIndices_getElem?_ravel c grid hc, Option.map_some,
+    Option.getD_some]
+
+theorem assemble_subBox (shape sub : Shape) (hl : sub.length = shape.length) (hpos : ∀ d ∈ sub, 0 < d)
+    (xs : List Elem) (hx : xs.length = prod shape) (fill : Elem) :
+    assemble shape sub ((boxIndices (gridOf shape sub)).map (fun c => subBox shape sub xs c fill)) fill = xs :=
+  assemble_eq shape sub hl hpos xs hx fill _ (fun c hc => map_getD_ravel _ _ _ c hc)
+
+/-! ### stores -/
+
+theorem get_filterMap {α} (key : α → List Char) (p : α → Bool) (val : α → Bytes) : ∀ (l : List α) (c : α),
+    (∀ a ∈ l, key a = key c → a = c) → c ∈ l →
+    Store.get (l.filterMap (fun a => if p a then none else some (key a, val a))) (key c) =
+      if p c then none else some (val c)
+  | [], c, _, hc => by simp at hc
+  | a :: l, c, hinj, hc => by
+    by_cases hac : a = c
+    · subst hac
+      by_cases hp : p a = true
+      · simp only [List.filterMap_cons, hp, if_true]
+        by_cases hcl : a ∈ l
+        · have := get_filterMap key p val l a (fun b hb => hinj b (by simp [hb])) hcl
+          rw [this, hp]; rfl
+        · have : ∀ (l' : List α), (∀ b ∈ l', b ∈ l) →
+              Store.get (l'.filterMap (fun a => if p a then none else some (key a, val a))) (key a) = none := by
+            intro l'
+            induction l' with
+            | nil => intro _; rfl
+            | cons b l' ih =>
+              intro hsub
+              have hb : b ∈ l := hsub b (by simp)
+              have hne : b ≠ a := fun h => hcl (h ▸ hb)
+              have hk : key b ≠ key a := fun h => hne (hinj b (by simp [hb]) h)
+              have ih' := ih (fun b' hb' => hsub b' (by simp [hb']))
+              simp only [List.filterMap_cons]
+              split
+              · exact ih'
+              · rename_i heq
+                split at heq
+                · cases heq
+                · cases heq
+                  simp only [Store.get, List.find?_cons] at ih' ⊢
+                  rw [show ((key b) == key a) = false from by simpa using hk]
+                  exact ih'
+          rw [this l (fun b hb => hb)]
+      · simp only [List.filterMap_cons, hp, Bool.false_eq_true, if_false]
+        simp [Store.get]
+    · have hcl : c ∈ l := by
+        rcases List.mem_cons.1 hc with h | h
+        · exact absurd h.symm hac
+        · exact h
+      have hk : key a ≠ key c := fun h => hac (hinj a (by simp) h)
+      have ih := get_filterMap key p val l c (fun b hb => hinj b (by simp [hb])) hcl
+      simp only [List.filterMap_cons]
+      split
+      · exact ih
+      · rename_i heq
+        split at heq
+        · cases heq
+        · cases heq
+          simp only [Store.get, List.find?_cons] at ih ⊢
+          rw [show ((key a) == key c) = false from by simpa using hk]
+          exact ih
+
+end Zarrs.Conform
